@@ -373,7 +373,9 @@ func (m *Variant) Encode() ([]byte, error) {
 
 	m.encode(buf, reflect.ValueOf(m.value))
 
-	if m.Has(VariantArrayDimensions) {
+	// Decode only reads the dimensions of arrays,
+	// so only arrays have dimensions to write.
+	if m.Has(VariantArrayValues) && m.Has(VariantArrayDimensions) {
 		buf.WriteInt32(m.arrayDimensionsLength)
 		for i := 0; i < int(m.arrayDimensionsLength); i++ {
 			buf.WriteInt32(m.arrayDimensions[i])
